@@ -23,6 +23,10 @@ use tu_verif::refs::{self, Scratch, Table};
 use tu_verif::run::Run;
 
 pub const ALPHA: [&str; 6] = ["a", "b", "c", " ", "ä", "\n"];
+/// second string set: every kind of White_Space as word separator (run on the hand tables and the
+/// smallest exhaustive tables only)
+pub const WS_ALPHA: [&str; 7] = ["a", "b", " ", "\u{a0}", "\t", "\u{3000}", "\u{2028}"];
+pub const WS_MAX_LEN: usize = 4;
 /// number of special tokens of `SpecialConfig::default()` (<unk>, <bos>, <eos>, <pad>)
 pub const NUM_SPECIAL: usize = 4;
 
@@ -36,7 +40,7 @@ pub fn base3() -> Vec<Vec<u8>> {
 
 /// prefix / suffix / use_graphemes configurations
 pub const CONFIGS: [(&[&str], &[&str], bool); 3] =
-    [(&[], &[], true), (&["<bos>"], &["<eos>"], false), (&["<bos>", "<bos>"], &["<eos>", "<pad>"], true)];
+    [(&[], &[], true), (&["<bos>"], &["<eos>"], false), (&["<bos>", "<bos>"], &["<eos>"], true)];
 
 // ------------------------------------------------------------------------------------------------
 // tables
@@ -276,7 +280,11 @@ pub struct Strs {
 
 impl Strs {
     pub fn new(max_len: usize) -> Strs {
-        let all = strings(&ALPHA, max_len);
+        Strs::with_alpha(&ALPHA, max_len)
+    }
+
+    pub fn with_alpha(alpha: &[&str], max_len: usize) -> Strs {
+        let all = strings(alpha, max_len);
         let mut count_upto = vec![0usize; max_len + 1];
         let mut words: Vec<String> = vec![];
         let mut index: HashMap<String, u32> = HashMap::new();
@@ -579,6 +587,7 @@ fn run_table(
     sp: &Space,
     job: &Job,
     strs: &Strs,
+    ws_strs: &Strs,
     origin: &str,
     full: &Table,
     corpus: Option<&[String]>,
@@ -604,6 +613,9 @@ fn run_table(
             };
             let max_len = if main { job.main_len } else { sp.len_product };
             run_strings(run, oracle, &b, strs, max_len, buf);
+            if main && (origin.starts_with("F3") || full.len() <= 1) {
+                run_strings(run, oracle, &b, ws_strs, WS_MAX_LEN, buf);
+            }
             // trained tables: the training words themselves
             if let (true, Some(lines)) = (main, corpus) {
                 let words = refs::bpe_corpus_words(&lines.to_vec());
@@ -663,7 +675,9 @@ pub fn drive(id: &'static str, mut oracle: impl Oracle) -> ! {
         std::process::exit(0);
     }
     let strs = Strs::new(sp.max_len);
+    let ws_strs = Strs::with_alpha(&WS_ALPHA, WS_MAX_LEN);
     run.bounds.insert("string_alphabet".into(), json!(ALPHA));
+    run.bounds.insert("white_space_string_set".into(), json!(format!("all strings over {WS_ALPHA:?} up to {WS_MAX_LEN} symbols, on the hand tables and the exhaustive tables with <= 1 entry (main configuration)")));
     run.bounds.insert("tables".into(), json!(sp.counts));
     run.bounds.insert("jobs".into(), json!(sp.jobs.len()));
     run.bounds.insert("units".into(), json!(sp.units.len()));
@@ -700,7 +714,7 @@ pub fn drive(id: &'static str, mut oracle: impl Oracle) -> ! {
         }
         for j in &sp.jobs[*a..*z] {
             match &j.kind {
-                Kind::Table { family, table } => run_table(&mut run, &mut oracle, &scratch, &sp, j, &strs, family, table, None, &mut buf),
+                Kind::Table { family, table } => run_table(&mut run, &mut oracle, &scratch, &sp, j, &strs, &ws_strs, family, table, None, &mut buf),
                 Kind::Train { corpus, merges } => {
                     run.calls += 1;
                     match train(&scratch, corpus, *merges) {
@@ -711,7 +725,7 @@ pub fn drive(id: &'static str, mut oracle: impl Oracle) -> ! {
                         Ok(table) => {
                             run.count("trainings-used");
                             let origin = format!("F4-trained corpus={corpus:?} merges={merges}");
-                            run_table(&mut run, &mut oracle, &scratch, &sp, j, &strs, &origin, &table, Some(corpus), &mut buf);
+                            run_table(&mut run, &mut oracle, &scratch, &sp, j, &strs, &ws_strs, &origin, &table, Some(corpus), &mut buf);
                         }
                     }
                 }
